@@ -200,6 +200,39 @@ def probe_dump(paths):
     return rows, sorted(inexpr)
 
 
+def _string_constants(code):
+    out = set()
+    for c in code.co_consts:
+        if isinstance(c, str):
+            out.add(c)
+        elif isinstance(c, (tuple, frozenset)):
+            out |= set(x for x in c if isinstance(x, str))
+        elif hasattr(c, 'co_consts'):
+            out |= _string_constants(c)
+    return out
+
+
+def backend_tables():
+    """{backend: names of the options Dosini.options_for_backend lists for it (required + optional)}, enumerated from the
+    running code: the candidates are FlowIR.Backends and every string constant of options_for_backend / validate_component
+    (the function compares its argument with literals); a candidate is a backend when FlowIR lists it or when the function
+    answers something else than for an unknown name.  Nothing here knows the names."""
+    import experiment.model.frontends.dosini as D
+    import experiment.model.frontends.flowir as F
+    cands = set(getattr(F.FlowIR, 'Backends', []))
+    for fn in (D.Dosini.options_for_backend, D.Dosini.validate_component):
+        cands |= _string_constants(getattr(fn, '__func__', fn).__code__)
+    unknown = D.Dosini.options_for_backend('\0no such backend')
+    out = {}
+    for b in sorted(cands):
+        if not b or len(b) > 40 or any(ch.isspace() for ch in b):
+            continue
+        o = D.Dosini.options_for_backend(b)
+        if b in getattr(F.FlowIR, 'Backends', []) or o != unknown:
+            out[b] = sorted(set(o.get('required', [])) | set(o.get('optional', [])))
+    return out
+
+
 def measure():
     import experiment.model.frontends.dosini as D
     prow, dropped = probe_parse()
@@ -209,7 +242,7 @@ def measure():
             paths.append(prow[k][0])
     drow, inexpr = probe_dump(paths)
     return {'dump': drow, 'parse': prow, 'dropped': dropped, 'inexpressible': inexpr, 'paths': paths,
-            'known': sorted(D.Dosini.known_flowir_options())}
+            'known': sorted(D.Dosini.known_flowir_options()), 'backends': backend_tables()}
 
 
 # ------------------------------------------------------------------ Gallina printer
@@ -248,7 +281,11 @@ def render(m):
           'Definition dropped_keys : list string :=', '  ' + clist(m['dropped'], cstr) + '.', '',
           '(* every probed option path; those for which the writers emit nothing *)',
           'Definition option_paths : list string :=', '  ' + clist(m['paths'], cstr) + '.',
-          'Definition inexpressible : list string :=', '  ' + clist(m['inexpressible'], cstr) + '.', '']
+          'Definition inexpressible : list string :=', '  ' + clist(m['inexpressible'], cstr) + '.', '',
+          '(* Dosini.options_for_backend(b) for every backend the code knows: the names validate_component accepts for a',
+          '   component of that backend; a name that is not a known key is kept as a variable of the component *)',
+          'Definition backend_options : list (string * list string) :=',
+          '  ' + clist(sorted(m['backends'].items()), lambda e: '(%s, %s)' % (cstr(e[0]), clist(e[1], cstr))) + '.', '']
     return '\n'.join(L)
 
 
